@@ -26,7 +26,9 @@ fn emit_condition(
             out.push(json!({"CNT?": scope.resolve_divert_target(name, context)}));
         }
         // Fully-qualified path like knot.stitch.label — treat as CNT? visit count
-        Condition::Expression(Expression::Variable(name)) if name.contains('.') => {
+        Condition::Expression(Expression::Variable(name))
+            if name.contains('.') && context.resolve_list_item(name).is_none() =>
+        {
             out.push(json!({"CNT?": name}));
         }
         Condition::Expression(expression) => {
